@@ -10,23 +10,23 @@ E3 = "E3-schedule-exploration"
 # property -> (engine, level text, level note, technique, design_ref)
 CHECKS = {
     "C01": (E1,
-            "Every record over the alphabet {-2,0,1}^L (L<=4 quick, <=5 cross / <=7 auto thorough), every ordered start sequence on a 7-sample record, all windows/frequencies/orders in the stated lattice are run through the real Numba, NumPy and CUDA-simulator kernels and compared with a longdouble evaluation of the defining sum; no sampling.",
+            "Windows include one with interior zeros and negative taps; low-relative-scatter records; two realistic-size bins per backend/mode/order (K=300xL=4096, K=33000xL=40). Every record over the alphabet {-2,0,1}^L (L<=4 quick, <=5 cross / <=7 auto thorough), every ordered start sequence on a 7-sample record, all windows/frequencies/orders in the stated lattice are run through the real Numba, NumPy and CUDA-simulator kernels and compared with a longdouble evaluation of the defining sum; no sampling.",
             "small-scope: alphabet {-2,0,1}, identifiable records, L<=7 (long L only in thorough part C); CUDA = core_cuda.py under numba's simulator; tolerance is a derived rounding bound of the recurrence",
             "bounded exhaustive input enumeration against a reference model (explicit-state, no sampling)", "DESIGN.md §4 C01"),
     "C02": (E1,
-            "Full product of a configuration lattice (every N in 8..40/64 plus large N, 8 overlaps incl. 0.9/0.99, all clamp-activating bmin/Lmin, 7-8 Jdes, 5 Kdes, 3-4 fs) for all four schedulers, each called directly and through SpectrumAnalyzer.plan(); every bin of every plan is checked against the segmentation predicates.",
+            "Plus process-level ordered-pair call histories (fork->A->fork->B vs pristine) over a 29-configuration set, analyzer plan == direct plan, and spot configurations at N=60000/100000. Full product of a configuration lattice (every N in 8..40/64 plus large N, 8 overlaps incl. 0.9/0.99, all clamp-activating bmin/Lmin, 7-8 Jdes, 5 Kdes, 3-4 fs) for all four schedulers, each called directly and through SpectrumAnalyzer.plan(); every bin of every plan is checked against the segmentation predicates.",
             "configurations off the lattice are not covered; admissibility filter is the property's quantifier",
             "bounded exhaustive configuration enumeration with per-state invariants", "DESIGN.md §4 C02"),
     "C03": (E1,
-            "Same lattice; per-plan invariants r*L=fs, f[j+1]=f[j]+r[j], f[0]=bmin*fs/N, monotone, below Nyquist, b=f/r=f*L/fs, lower bound on b with the two slacks the property names, lpsd == ltf(bmin=1,Lmin=1).",
+            "Plus the process-level ordered-pair call histories and N=60000/100000 spot configurations. Same lattice; per-plan invariants r*L=fs, f[j+1]=f[j]+r[j], f[0]=bmin*fs/N, monotone, below Nyquist, b=f/r=f*L/fs, lower bound on b with the two slacks the property names, lpsd == ltf(bmin=1,Lmin=1).",
             "float comparisons at 4-16 ulp; slack for b derived from half-sample rounding of L and the lookup-grid ratio",
             "bounded exhaustive configuration enumeration with per-state invariants", "DESIGN.md §4 C03"),
     "C04": (E1,
-            "Same lattice with the C04 predicates (monotone L/navg, log spacing and Kdes where a reference decision procedure says no clamp is active, nearest-integer navg with cap, even spreading, realised overlap, vectorised-vs-iterative bin count) plus every force_target_nf target in 100..400 for each scheduler.",
+            "Plus process-level ordered-pair call histories incl. forced-bin-count searches, analyzer plan == direct plan on a sub-lattice, forced targets at N=60000. Same lattice with the C04 predicates (monotone L/navg, log spacing and Kdes where a reference decision procedure says no clamp is active, nearest-integer navg with cap, even spreading, realised overlap, vectorised-vs-iterative bin count) plus every force_target_nf target in 100..400 for each scheduler.",
             "'no clamp active' decided by a reference procedure written from the documented targets; ties accepted either way",
             "bounded exhaustive configuration enumeration with per-state invariants", "DESIGN.md §4 C04"),
     "C05": (E1,
-            "Full product of an analysis-configuration lattice (N, 4 schedulers, 6 window specifications incl. numpy/scipy Kaiser callables and a custom callable, 4 orders, Numba/NumPy (+CUDA-simulator) backends, 3 overlaps, 2 (Jdes,Kdes), bmin, Lmin, auto/cross, 2-3 records): every bin of every result is compared with a longdouble reference estimator evaluated at the plan's own f, L, D with an independently built window; every bin is re-requested as a single-bin analysis (L= and fres=); every pair of band edges from a stated set is checked against the in-band slice.",
+            "Plus off-grid single-bin requests (non-dividing fres, off-plan L), process-level ordered-pair call histories, a 1613-bin plan and an N=20000 default-parameter analysis. Full product of an analysis-configuration lattice (N, 4 schedulers, 6 window specifications incl. numpy/scipy Kaiser callables and a custom callable, 4 orders, Numba/NumPy (+CUDA-simulator) backends, 3 overlaps, 2 (Jdes,Kdes), bmin, Lmin, auto/cross, 2-3 records): every bin of every result is compared with a longdouble reference estimator evaluated at the plan's own f, L, D with an independently built window; every bin is re-requested as a single-bin analysis (L= and fres=); every pair of band edges from a stated set is checked against the in-band slice.",
             "small N (16..64, thorough to 257); reference Kaiser window from the I0 definition with the published alpha(psll) polynomial",
             "bounded exhaustive configuration/input enumeration against a reference model", "DESIGN.md §4 C05"),
     "C06": (E1,
